@@ -136,7 +136,7 @@ MUTANTS += [
     ("c19-expire-not-rebased", "onl/utils/timer.py", "        self.start_time = self.env.now\n        self.timeout = timeout\n        self.expire_time = self.start_time + timeout", "        self.timeout = timeout\n        self.expire_time = self.start_time + timeout", ["C19"]),
     ("c19-restart-keeps-old-proc", "onl/utils/timer.py", "            self.proc.interrupt(\"restart timer\")\n            self.proc = self.env.process(self.run(self.env))", "            self.proc = self.env.process(self.run(self.env))", ["C19"]),
     ("c19-auto-rearm-from-expiry", "onl/utils/timer.py", "                        self.expire_time = env.now + self.timeout", "                        self.expire_time = self.start_time + 2 * self.timeout", ["C19"]),
-    ("c19-args-tuple-not-unwrapped", "onl/utils/timer.py", "        elif not isinstance(args, (list, tuple)):", "        elif not isinstance(args, (list, tuple, str)):", []),
+    ("c19-args-tuple-not-unwrapped", "onl/utils/timer.py", "        elif not isinstance(args, (list, tuple)):", "        elif not isinstance(args, (list, tuple, str)):", ["C19"]),
     ("c19-stop-does-not-pull-expiry", "onl/utils/timer.py", "        self.stopped = True\n        self.expire_time = self.env.now", "        self.stopped = self.expire_time > self.env.now", ["C19"]),
 ]
 
